@@ -329,6 +329,68 @@ def check_range_close(rec, W):
                             rec.violation("C05/H5-%s-closed-%d-times" % (name, get()), f"{case}", case, monitor="H5")
 
 
+def check_reuse_and_faulty_callback(rec, W):
+    """History: one response object served twice - each serve closes the body and runs the callbacks once more, not
+    twice.  Fault: the last registered callback raises when the server closes the response - the body is closed
+    and the callbacks registered before it have run, each exactly once."""
+    Response, create_environ = W.Response, W.create_environ
+    for kind in ("closable", "fw", "list"):
+        for method, status in (("GET", 200), ("HEAD", 200), ("GET", 304)):
+            # ---- served twice
+            rec.case()
+            rec.nontrivial(("served-twice", kind, method, status))
+            case = {"part": "served-twice", "kind": kind, "method": method, "status": status}
+            body, _, spies = mkbody(kind, W) if kind != "list" else ([b"he", b"llo"], b"hello", [])
+            r = Response(body, status=status, direct_passthrough=(kind == "fw"))
+            c = [0]
+            r.call_on_close(lambda c=c: c.__setitem__(0, c[0] + 1))
+            with rec.guard(case, "C05"):
+                prev_cb, prev_close = 0, [0 for _ in spies]
+                for serve in (1, 2, 3):
+                    it, st, hd = r.get_wsgi_response(create_environ("/", method=method))
+                    try:
+                        b"".join(it)
+                    except Exception:  # noqa: BLE001  (a body that was consumed / closed by the previous serve)
+                        pass
+                    if hasattr(it, "close"):
+                        it.close()
+                    rec.observe("responses_served_again")
+                    if c[0] - prev_cb != 1:
+                        rec.violation("C05/H5-close-callback-ran-%d-times" % (c[0] - prev_cb), f"serve {serve} of the same response: {case}", case, monitor="H5")
+                        break
+                    now = [get() for name, get, after in spies]
+                    if any(n_ - p_ != 1 for n_, p_ in zip(now, prev_close)):
+                        rec.violation("C05/H5-%s-closed-%d-times" % (spies[0][0], now[0] - prev_close[0]), f"serve {serve} of the same response: {case}", case, monitor="H5")
+                        break
+                    prev_cb, prev_close = c[0], now
+            # ---- last callback raises
+            rec.case()
+            rec.nontrivial(("callback-raises", kind, method, status))
+            case = {"part": "callback-raises", "kind": kind, "method": method, "status": status}
+            body, _, spies = mkbody(kind, W) if kind != "list" else ([b"he", b"llo"], b"hello", [])
+            r = Response(body, status=status, direct_passthrough=(kind == "fw"))
+            c = [0]
+            r.call_on_close(lambda c=c: c.__setitem__(0, c[0] + 1))
+
+            def boom():
+                raise RuntimeError("callback failed")
+
+            r.call_on_close(boom)
+            with rec.guard(case, "C05"):
+                it, st, hd = r.get_wsgi_response(create_environ("/", method=method))
+                b"".join(it)
+                try:
+                    if hasattr(it, "close"):
+                        it.close()
+                except RuntimeError:
+                    rec.observe("closing_raised_from_callback")
+                if c[0] != 1:
+                    rec.violation("C05/H5-close-callback-ran-%d-times" % c[0], f"{case}", case, monitor="H5")
+                for name, get, after in spies:
+                    if get() != 1:
+                        rec.violation("C05/H5-%s-closed-%d-times" % (name, get()), f"a later callback raised: {case}", case, monitor="H5")
+
+
 class World:
     pass
 
@@ -532,6 +594,7 @@ def run(shard, rec, rng):
     W = world()
     if shard["index"] == 0:
         check_range_close(rec, W)
+        check_reuse_and_faulty_callback(rec, W)
     phase = int(shard["_seed"]) % cfg["stride"]
     n = 0
     for cell in itertools.product(KINDS, STAT, METHODS, CLS, LOCS, [True, False], [0, 2], [False, True]):
